@@ -85,6 +85,8 @@ where
                     };
 
                     // Invalidate current value.
+                    #[cfg(remoc_verif)]
+                    crate::verif::emit("rw_owner_write_begin", &[]);
                     let _ = invalid_tx.send(true);
 
                     // Wait for drop confirmation from all lock holders.
@@ -95,6 +97,8 @@ where
                         }
                     }
 
+                    #[cfg(remoc_verif)]
+                    crate::verif::emit("rw_owner_all_dropped", &[]);
                     // Create new dropped notification channel.
                     let (new_dropped_tx, new_dropped_rx) = mpsc::channel(1);
                     let new_dropped_tx = new_dropped_tx.set_buffer();
@@ -111,8 +115,12 @@ where
                     let _ = value_tx.send(value.clone());
 
                     // Wait for modified value and store it.
+                    #[cfg(remoc_verif)]
+                    crate::verif::emit("rw_owner_handed_out", &[]);
                     if let Ok(nv) = new_value_rx.await {
                         *value = nv;
+                        #[cfg(remoc_verif)]
+                        crate::verif::emit("rw_owner_stored", &[]);
 
                         // Send confirmation.
                         let _ = confirm_tx.send(());
@@ -134,6 +142,8 @@ where
                         dropped_tx: dropped_tx.clone(),
                         invalid_rx: invalid_rx.clone(),
                     };
+                    #[cfg(remoc_verif)]
+                    crate::verif::emit("rw_owner_read", &[]);
                     let _ = value_tx.send(v);
                 },
             }
